@@ -42,7 +42,7 @@ def execute(case, tape):
     return out
 
 
-BUDGET = {"quick": (40000, 60), "thorough": (800000, 900)}
+BUDGET = {"quick": (80000, 75), "thorough": (1600000, 1500)}
 REAL = ["pydcop.algorithms.mgm", "pydcop.algorithms.mgm2", "pydcop.dcop.relations",
         "pydcop.computations_graph.constraints_hypergraph", "pydcop.infrastructure.computations"]
 STUB = ["Agent", "Messaging", "transport", "discovery (replaced by compsim FIFO channel model)"]
